@@ -282,6 +282,9 @@ def splitEnv (ws : List String) : Option (List String × Env) :=
     else if w.startsWith "sd=" then do
       let bs ← (splitList "," (w.drop 3).toString).mapM (·.toNat?)
       some (acc.1, { acc.2 with syncDown := bs })
+    else if w.startsWith "rd=" then do
+      let ls ← (splitList "," (w.drop 3).toString).mapM (·.toNat?)
+      some (acc.1, { acc.2 with delayOrder := ls })
     else some (acc.1 ++ [w], acc.2)) ([], {})
 
 def parseEv : List String → Option Ev
@@ -376,6 +379,7 @@ def parseTItem : List String → Option TItem
   | ["t-lose", c] => do some (.lose (← c.toNat?))
   | ["t-bootgone", j] => do some (.bootGone (← j.toNat?))
   | "t-net" :: rest => some (.net (" ".intercalate rest))
+  | ["t-exc", c] => some (.exc c)
   | _ => none
 
 def failsLine (fs : List String) : List String :=
